@@ -331,6 +331,11 @@ func run(seed int64, n int, dir string, _ []string) {
 			udaProlog + "SELECT id, pick(id, a) OVER (PARTITION BY b) AS p, pick(a, id) OVER (PARTITION BY c ORDER BY id) AS q FROM big",
 			udaProlog + "SELECT b, pick(id, 1), pick(a, 2) FROM big GROUP BY b",
 			udfProlog + "SELECT id, twice(a) AS t FROM big WHERE twice(b) > 2",
+			// a recursive query inside a sub-query that is evaluated once per record, under a --limit-recursion just above
+			// its depth (marker /*LR=n*/): every evaluation has to count its own iterations
+			"/*LR=8*/SELECT id, (WITH RECURSIVE t (n) AS (SELECT 1 UNION ALL SELECT n + 1 FROM t WHERE n < 3 + x.b % 6) SELECT SUM(n) FROM t) AS s FROM (SELECT id, b FROM big WHERE id < 420) x",
+			"/*LR=6*/SELECT id FROM (SELECT id, a FROM big WHERE id < 420) x WHERE a < (WITH RECURSIVE t (n) AS (SELECT 1 UNION ALL SELECT n + 1 FROM t WHERE n < 6) SELECT MAX(n) FROM t)",
+			"/*LR=5*/SELECT x.id, r.n FROM (SELECT id, b FROM big WHERE id < 420) x CROSS JOIN LATERAL (WITH RECURSIVE t (n) AS (SELECT 1 UNION ALL SELECT n + 1 FROM t WHERE n < 2 + x.b % 4) SELECT n FROM t WHERE n > 1) r",
 		}
 		dml := []string{
 			"UPDATE big SET c = 'u' WHERE b = 1; COMMIT;",
@@ -350,6 +355,11 @@ func run(seed int64, n int, dir string, _ []string) {
 						_ = pr.P.Tx.Session.SetStdin(io.NopCloser(strings.NewReader(stdinCSV)))
 					}
 					qq := q
+					if strings.HasPrefix(qq, "/*LR=") {
+						var lr int64
+						_, _ = fmt.Sscanf(qq, "/*LR=%d*/", &lr)
+						pr.P.Tx.Flags.SetLimitRecursion(lr)
+					}
 					if k := strings.LastIndex(q, ";\n"); k >= 0 {
 						if _, e := pr.Exec(q[:k+1]); e != nil {
 							o.Law("prolog_error", e.Error())
